@@ -15,6 +15,10 @@ use minidump::MinidumpModule;
 
 pub struct Cfi;
 
+/// `cfi cw …` cases: the real `CfiStackWalker` driven call by call (see the module docs there)
+#[path = "cfi_cw.rs"]
+mod cw;
+
 // ------------------------------------------------------------------------------------ case
 
 #[derive(Clone, Debug, Default)]
@@ -1172,7 +1176,11 @@ impl Engine for Cfi {
     fn rule(&self) -> String {
         "SymbolFile::walk_frame on a generated CFI-only symbol file with a mock FrameWalker vs the Lean model \
          (MdModel.Cfi.walkFrameO) and vs an independent tree evaluation written from the walker.rs documentation; \
-         non-trivial = the record covers the lookup address, the rules parse, and some rule has an operator"
+         non-trivial = the record covers the lookup address, the rules parse, and some rule has an operator; \
+         `cfi cw` cases: the REAL CfiStackWalker<C> of minidump-unwind, received as &mut dyn FrameWalker by a SymbolProvider \
+         of the harness inside walk_stack, driven by a script of trait-method calls (incl. the real walk_with_stack_cfi) on \
+         x86/amd64/arm/arm64/arm64old/mips32/mips64 vs MdModel.CfiWalker and vs the mock twin; non-trivial = walk_frame was \
+         reached with a non-empty script"
             .into()
     }
     fn exhaustive_part(&self) -> Option<String> {
@@ -1220,6 +1228,15 @@ impl Engine for Cfi {
             emit(render(&c));
             made += 1;
         }
+        // the real CfiStackWalker<C>, call by call, on all seven context kinds (`cfi cw` cases)
+        cw::gen_directed(emit);
+        let ncw = match tier {
+            Tier::Quick => 60_000,
+            Tier::Thorough => 600_000,
+        };
+        for _ in 0..ncw {
+            emit(cw::gen_case(rng));
+        }
         for i in 0..nrand {
             if i % 40 == 1 {
                 emit(self.gen_deep_expr(rng));
@@ -1232,6 +1249,9 @@ impl Engine for Cfi {
     }
 
     fn exec(&self, case: &str) -> ImplResult {
+        if case.starts_with("cfi cw ") {
+            return cw::exec(case);
+        }
         let mut res = ImplResult::default();
         let Some(c) = parse_case(case) else {
             res.out = "bad-op".into();
@@ -1370,6 +1390,9 @@ impl Engine for Cfi {
     }
 
     fn shrink(&self, case: &str, still_fails: &dyn Fn(&str) -> bool) -> String {
+        if case.starts_with("cfi cw ") {
+            return cw::shrink(case, still_fails);
+        }
         let Some(mut c) = parse_case(case) else { return case.to_string() };
         let toks = |r: &[u8]| -> Vec<String> {
             String::from_utf8_lossy(r).split_ascii_whitespace().map(|s| s.to_string()).collect()
